@@ -22,7 +22,7 @@ FuncsCore == {
   <<"rotate", <<>>, <<1>>>>,
   <<"rotate", <<>>, <<4>>>>,
   <<"rotate", <<I(3), I(-2)>>, <<1>>>>,
-  <<"rotate", <<I(3), I(-2)>>, <<5>>>>,
+  <<"rotate", <<I(5), I(0)>>, <<5>>>>,
   <<"skewx", <<>>, <<8>>>>,
   <<"skewy", <<>>, <<4>>>>,
   <<"skew", <<>>, <<8, 4>>>>,
@@ -37,14 +37,14 @@ FuncsMore == {
   <<"rotate", <<>>, <<6>>>>,
   <<"rotate", <<>>, <<7>>>>,
   <<"rotate", <<>>, <<9>>>>,
-  <<"rotate", <<I(-4), I(1)>>, <<2>>>>,
+  <<"rotate", <<I(0), I(7)>>, <<2>>>>,
   <<"skewx", <<>>, <<5>>>>,
   <<"skewy", <<>>, <<8>>>>,
   <<"skew", <<>>, <<5, 8>>>> }
 Funcs == IF Full THEN FuncsCore \cup FuncsMore ELSE FuncsCore
 OpsOnly == { <<"scale_at", <<I(2), I(-3), I(3), I(-2)>>, <<>>>>,
-             <<"skewx_at", <<I(3), I(-2)>>, <<8>>>>,
-             <<"skewy_at", <<I(-4), I(1)>>, <<4>>>>,
+             <<"skewx_at", <<I(3), I(0)>>, <<8>>>>,
+             <<"skewy_at", <<I(0), I(1)>>, <<4>>>>,
              <<"translate", <<I(96), I(48)>>, <<>>>> }
 P0 == <<I(3), I(-7)>>
 
